@@ -3,7 +3,7 @@ from tools.extract import Unit, Rw
 from tools.krun import Harness
 
 PROPERTY = "C14"
-PRELUDE = ["../common/base.rs", "prelude.rs", "streamer_specs.rs", "restore_stubs.rs", "merge_stubs.rs", "write_stubs.rs"]
+PRELUDE = ["../common/base.rs", "prelude.rs", "streamer_specs.rs", "restore_stubs.rs", "merge_stubs.rs", "write_stubs.rs", "process_node_stubs.rs"]
 T = "crates/core/src/blob/tree.rs"
 R_ERR = Rw("", "verr()", count=None, kind="err", optional=True, why="RusticError construction (kind/message/context dropped)")
 R_DISCARD = Rw(r"(?m)^(\s*)_ = ", r"\1let _ = ", regex=True, count=None, optional=True, why="`_ = e;` -> `let _ = e;`")
@@ -173,6 +173,41 @@ UNITS += [
          ),
 ]
 
+UNITS += [
+    # the closure process_node of collect_and_prepare: one node of the snapshot (a directory is created unless it exists or
+    # this is a dry run; every regular file -- except a further hard link to an already planned one -- is handed to add_file)
+    Unit(name="process_node", file=RS, kind="block", within="pub(crate) fn collect_and_prepare<S: IndexedFull>(",
+         anchor="match node.node_type {\n            NodeType::Dir => {\n                if exists {", block_end="    };\n\n    let mut walker = WalkDir::new",
+         block_sig="fn process_node(path: &PathBufP, node: &NodeP, exists: bool, dry_run: bool, opts: &VRestoreOptsP, repo: &VRepoP, dest: &mut DestP, stats: &mut RestoreStatsP, restore_infos: &mut RestorePlanP) -> (r: RusticResult<()>)",
+         block_tail="",
+         functions=["commands::restore::collect_and_prepare (body of the closure process_node: one node of the snapshot)"],
+         rewrites=[
+             Rw("", "", count=None, kind="log", why="logging removed"),
+             Rw("", "", count=None, kind="maperr", why=".map_err(<error building closure>) -> .vmap_err()"),
+             Rw("dest.create_dir(path)", "dest.vcreate_dir(path, Ghost(dry_run))", why="LocalDestination::create_dir -> effectful stub: REQUIRES !dry_run"),
+             Rw(r"match restore_infos\.hardlink_candidates\.entry\(key\) \{\s*std::collections::btree_map::Entry::Vacant\(entry\) => \{\s*_ = entry\.insert\((?P<v>[^;]*?)\);\s*\}\s*std::collections::btree_map::Entry::Occupied\(_\) => return Ok\(\(\)\),[^\n]*\n\s*\}",
+                r"if restore_infos.hardlink_candidates.vcontains(&key) { return Ok(()); } else { restore_infos.hardlink_candidates.vinsert(key, \g<v>); }", regex=True,
+                why="BTreeMap entry API (Vacant => insert, Occupied => return) -> contains / insert on a ghost map"),
+             Rw("path.clone()", "vclone_path(path)", count=None, why="PathBuf::clone"),
+             Rw("restore_infos.add_file(dest, node,", "restore_infos.add_file(&*dest, node,", why="reborrow of the destination"),
+         ],
+         contract="""
+    requires
+        old(stats).dirs.modify < u64::MAX, old(stats).dirs.restore < u64::MAX, old(stats).files.modify < u64::MAX,
+        old(stats).files.restore < u64::MAX, old(stats).files.unchanged < u64::MAX, old(stats).files.verified < u64::MAX,
+    ensures
+        // a directory of the snapshot that is missing in the destination is created (unless this is a dry run: precondition of the stub)
+        /*@missing_directory_is_created*/ r is Ok && node.node_type is Dir && !exists && !dry_run ==> final(dest).created@.contains(path.id),
+        /*@dry_run_creates_nothing*/ dry_run ==> final(dest).created@ == old(dest).created@,
+        // every regular file is planned (handed to add_file), except a further hard link to a file that is planned already
+        /*@every_file_is_planned*/ r is Ok && node.node_type is File
+            && !(HARDLINK_KEY(*node) matches Some(k) && old(restore_infos).hardlink_candidates.m@.dom().contains(k))
+            ==> final(restore_infos).planned@ == old(restore_infos).planned@.push(path.id),
+        // nothing else is ever planned under this path
+        /*@only_files_are_planned*/ !(node.node_type is File) ==> final(restore_infos).planned@ == old(restore_infos).planned@,
+"""),
+]
+
 KANI = []
 UNITS += [
     # the innermost task of restore_contents: allocate the file on first touch, then write one blob at its offset
@@ -189,6 +224,21 @@ UNITS += [
              Rw(r"dest\.write_at\(path, ([^;]*?), &data\)\.unwrap\(\);", r"dest.vwrite_at(path, \1, &data, fs);", regex=True, why="LocalDestination::write_at + unwrap -> ghost file-system stub"),
              Rw(r"dest\s*\.read_at\(path, start, size\)\s*\.is_ok_and\(\|old\| old\.iter\(\)\.all\(\|&b\| b == 0\)\)", "dest.vreads_as_zeros(path, start, size, fs)", regex=True, why="read_at + all-bytes-zero test (closure) -> stub: true only if the range reads as zeros"),
          ],
+         hints=[("before", "p.inc(size);", """                                proof {
+                                    // explicit instantiations (the proof must not depend on the solver's choice of triggers)
+                                    let k = filenames@[file_idx as int].key@;
+                                    assert forall|i: int| 0 <= i < filenames@.len() && i != file_idx implies (#[trigger] filenames@[i]).key@ != k by {
+                                        if i < file_idx { assert(filenames@[i].key@ != filenames@[file_idx as int].key@); } else { assert(filenames@[file_idx as int].key@ != filenames@[i].key@); }
+                                    }
+                                    assert forall|i: int| 0 <= i < sizes_guard@.len() implies ((#[trigger] sizes_guard@[i]) == planned[i] && planned[i] > 0)
+                                        || (sizes_guard@[i] == 0 && fcontent(*fs, filenames@[i].key@).len() == planned[i]) by {
+                                        if i != file_idx {
+                                            assert(filenames@[i].key@ != k);
+                                            assert(fcontent(*fs, filenames@[i].key@) == fcontent(*old(fs), filenames@[i].key@));
+                                            assert(sizes_guard@[i] == old(sizes)@[i]);
+                                        }
+                                    }
+                                }""")],
          contract="""
     requires
         file_idx < filenames@.len(),
